@@ -5,6 +5,7 @@
   Import-free.
 -/
 import InjModel.Model.Rt
+import InjModel.Model.Sig
 namespace Inj.Sig
 open Inj.Rt
 
@@ -28,5 +29,48 @@ def returnsBoolText (s : List Char) : Bool :=
   match afterParamsC s with
   | some rest => strTrim rest == arrowBool
   | none => false
+
+/-! ## the text of a token list, as `type_name` spaces it (validated against rustc on every run: `sigty` lines) -/
+
+/-- the spelling of identifiers (paths), integer constants and ABI names -/
+structure Names where
+  id : Nat → List Char
+  num : Nat → List Char
+  abi : Nat → List Char
+
+def tokText (nm : Names) (t : Tok) (next : List Tok) : List Char :=
+  match t with
+  | Tok.id n => nm.id n
+  | Tok.num n => nm.num n
+  | Tok.amp => ['&']
+  | Tok.mut_ => ['m', 'u', 't', ' ']
+  | Tok.star => ['*']
+  | Tok.const_ => ['c', 'o', 'n', 's', 't', ' ']
+  | Tok.dyn_ => ['d', 'y', 'n', ' ']
+  | Tok.lp => ['(']
+  | Tok.rp => [')']
+  | Tok.lb => ['[']
+  | Tok.rb => [']']
+  | Tok.lt => ['<']
+  | Tok.gt => ['>']
+  | Tok.comma => (match next with | Tok.rp :: _ => [','] | _ => [',', ' '])
+  | Tok.semi => [';', ' ']
+  | Tok.arrow => [' ', '-', '>', ' ']
+  | Tok.fn_ => ['f', 'n']
+  | Tok.unsafe_ => ['u', 'n', 's', 'a', 'f', 'e', ' ']
+  | Tok.extern_ a => ['e', 'x', 't', 'e', 'r', 'n', ' ', '"'] ++ nm.abi a ++ ['"', ' ']
+
+def spellC (nm : Names) : List Tok → List Char
+  | [] => []
+  | t :: rest => tokText nm t rest ++ spellC nm rest
+
+/-- what the text-level theorem assumes of the spelling of names: identifiers contain neither
+    parentheses nor white space, `bool` is spelled `bool` and nothing else is; constants and ABI
+    names contain no parentheses -/
+structure NamesOK (nm : Names) : Prop where
+  id_plain : ∀ n c, c ∈ nm.id n → c ≠ '(' ∧ c ≠ ')' ∧ isWs c = false
+  id_bool : ∀ n, nm.id n = ['b', 'o', 'o', 'l'] ↔ n = boolId
+  num_plain : ∀ n c, c ∈ nm.num n → c ≠ '(' ∧ c ≠ ')'
+  abi_plain : ∀ a c, c ∈ nm.abi a → c ≠ '(' ∧ c ≠ ')'
 
 end Inj.Sig
